@@ -69,7 +69,23 @@ class AbsSeqs:
         raise Unsupported('slice of abstract sequence')
 
     def abs_concat(self, a, b, st):
+        """a + b for abstract lists.  When both are duplicate-free the result is treated as duplicate-free too, which is
+        only right if they are disjoint: that becomes an obligation (a candidate listed twice would be processed twice)."""
         if a.ek != b.ek:
             raise Unsupported('concatenation of different element kinds')
-        return SAbs(a.ek, lambda t: z3.Or(a.mem(t), b.mem(t)), a.length + b.length, distinct=False,
+        n = a.length + b.length
+        if a.distinct and b.distinct and a.pos is not None and b.pos is not None:
+            ex = self.ex
+            t = z3.Int('t!cat')
+            caller = ex.cur_func.qualname if ex.cur_func is not None else '?'
+            if not getattr(ex, 'muted', 0):
+                ex.col.add('PRE', ex.cur_props or [], caller, 'concat:disjoint',
+                           'lists that are concatenated and then processed element by element have no element in common',
+                           self.assumptions(st), z3.ForAll([t], z3.Not(z3.And(a.mem(t), b.mem(t)))))
+            from .l2 import mk_abs
+            mem = lambda t_: z3.Or(a.mem(t_), b.mem(t_))       # noqa
+            R = mk_abs(self, st, a.ek, mem, n, base='cat', distinct=True)
+            R.facts = R.facts + a.facts + b.facts
+            return R
+        return SAbs(a.ek, lambda t_: z3.Or(a.mem(t_), b.mem(t_)), n, distinct=False,
                     ordered=False, name=a.name + '+' + b.name, facts=a.facts + b.facts)
